@@ -37,9 +37,10 @@ class C17(Check):
         'filter, appendMedium, deleteMedium, __setitem__, item, serialisation), tied to the code by the '
         'differential correspondence of this run (implementation vs model on generated edit histories)',
         'translator tools/gen/c17_media.py (MEDIA_TYPES and keyword sets read from the source with ast)',
-        'translator tools/gen/c17_grammar.py (production trees captured from the live MediaList / MediaQuery objects) and '
-        'the engine model lean/CssVerif/Model/ProdEngine.lean: the derived automata agree with the engine on the '
-        'captured trees on every generated token list of this run (differential, not a theorem)',
+        'translator tools/gen/c17_grammar.py (production trees captured from the live MediaList / MediaQuery objects; the '
+        'match lambdas are opaque and tied by a probe battery) and the transcription of ProdParser.parse into '
+        'lean/CssVerif/Model/ProdEngine.lean: that the engine on the captured trees equals the derived automata is a '
+        'theorem (T17.6, every token list of the token domain A1), no longer a differential',
         'the tokenizer (property C05) and the serialisation of single values (property C18): tokens and the text of '
         'a value token are inputs of the model',
     )
@@ -129,7 +130,6 @@ class C17(Check):
     # -- correspondence --------------------------------------------------------------------------
     def correspond(self, ctx, impl, hist):
         lines, expect, owners = [], [], []
-        cmp_lines, cmp_seen = [], set()
         for h in hist:
             with time_limit(20):
                 steps = impl.run_history(h)
@@ -137,20 +137,23 @@ class C17(Check):
                 lines.append(line)
                 expect.append(reply)
                 owners.append(h)
-                # the same token lists for the comparison derived parser <-> engine on the captured grammars
-                w = line.split(' ')
-                c = None
-                if w[0] == 'set':
-                    c = 'cmpl %s %s' % (w[2], w[3])
-                elif w[0] == 'append' and w[2] != '!':
-                    c = 'cmpq %s' % w[2]
-                elif w[0] == 'setitem' and w[3] != '!':
-                    c = 'cmpq %s' % w[3]
-                if c and c not in cmp_seen:
-                    cmp_seen.add(c)
-                    cmp_lines.append(c)
         if not ctx.model_ok:
             return
+        # assumption A1 = hypothesis `Dom` of the simulation theorems (Props/C17 T17.6: engine on the captured
+        # grammars = derived automata, for every token list): a token whose value is ( ) : or , has type CHAR
+        a1 = 0
+        for line, h in zip(lines, owners):
+            for w in line.split(' '):
+                if '/' not in w:
+                    continue
+                for tok in w.split(','):
+                    part = tok.split('/')
+                    if len(part) == 3 and part[1] in ('28', '29', '3A', '2C'):
+                        a1 += 1
+                        if part[0] != 'CHAR':
+                            ctx.disagree('token domain A1 (hypothesis of the simulation theorems)',
+                                         {'context': h.context, 'start': h.start, 'line': line}, part[0], 'CHAR')
+        ctx.notes['a1_checked_tokens'] = a1
         out = ctx.driver(lines)
         unsupported = 0
         for line, want, got, h in zip(lines, expect, out, owners):
@@ -167,12 +170,21 @@ class C17(Check):
                               'ops': [list(o) for o in h.ops], 'line': line},
                              want, got)
         ctx.notes['model_unsupported_steps'] = unsupported
-        # derived automata vs the generic engine on the grammars captured from the live objects
-        out = ctx.driver(cmp_lines)
-        for line, got in zip(cmp_lines, out):
-            ctx.count('engine-vs-derived:' + got.split(' ')[0])
+        # smoke test of the executable engine model (the agreement itself is a theorem now): a handful of the token
+        # lists of this run through `cmpq` / `cmpl`
+        cmp_lines = []
+        for line in lines:
+            w = line.split(' ')
+            if w[0] == 'set':
+                cmp_lines.append('cmpl %s %s' % (w[2], w[3]))
+            elif w[0] == 'append' and w[2] != '!':
+                cmp_lines.append('cmpq %s' % w[2])
+            if len(cmp_lines) >= 200:
+                break
+        for line, got in zip(cmp_lines, ctx.driver(cmp_lines)):
+            ctx.count('engine-smoke:' + got.split(' ')[0])
             if got.startswith('differ') or got == 'bad-op':
-                ctx.disagree('derived parser vs engine on the captured grammar', {'line': line},
+                ctx.disagree('derived parser vs engine on the captured grammar (contradicts T17.6)', {'line': line},
                              'derived (Model/Media.lean)', got)
 
     # ------------------------------------------------------------------------------------------
